@@ -14,7 +14,9 @@ var edgeDoubles = []uint64{
 var strLens = []int{0, 1, 2, 3, 4, 5, 7, 8, 9, 15, 16, 17, 31, 33, 63, 64, 65, 100, 127, 128, 129, 200, 255, 256, 257, 300, 511, 512, 1000,
 	2040, 2047, 2048, 2049, 2100, 4095, 4096, 4097, 9000}
 
-var contLens = []int{0, 0, 1, 1, 2, 2, 3, 4, 7, 8, 9, 10, 16, 17, 33, 100, 130}
+// container sizes: bucket boundaries of the runtime's maps (8/9, 13/14, 26/27, 52/53, 104/105: the sizes at which an
+// insert-built map starts growing) and a few large ones
+var contLens = []int{0, 0, 1, 1, 2, 2, 3, 4, 7, 8, 9, 10, 13, 14, 16, 17, 27, 29, 33, 53, 55, 100, 105, 107, 130, 211, 223}
 
 // VOpt steers value generation.
 type VOpt struct {
